@@ -200,7 +200,8 @@ Record inv (pre : list op) (st : rstate) : Prop := {
                        | None => None end;
   inv_nodup : NoDup (names st);
   inv_pf : pfails st = [];
-  inv_res : residue st = [] }.
+  inv_res : residue st = [];
+  inv_pend : pending st = [] }.
 
 Lemma inv_init : inv [] rinit.
 Proof. split; try reflexivity. constructor. Qed.
@@ -213,7 +214,9 @@ Qed.
 
 Lemma inv_step pre st o : plain_op o = true -> inv pre st -> inv (pre ++ [o]) (step st o).
 Proof.
-  intros Hplain [Hm Hp Hs Hf Hn Hpf Hres].
+  intros Hplain [Hm Hp Hs Hf Hn Hpf Hres Hpend].
+  assert (Hwait : forall x, waiting st x = unstarted x).
+  { intros x. unfold waiting, is_pending, pending_of. rewrite Hpend. simpl. apply andb_true_r. }
   assert (Hsame : forall o', is_start o' = false -> (forall n, is_add n o' = false) ->
             forall n, match spec_cfg n (pre ++ [o']) with
                       | Some h => Some (HS h (spec_started n (pre ++ [o']))) | None => None end
@@ -225,7 +228,7 @@ Proof.
   assert (Hr : forall o', regs_of (pre ++ [o']) = regs_of pre ++ regs_of [o']) by (intros; apply flat_map_app).
   assert (Hpd : forall o', pdecs_of (pre ++ [o']) = pdecs_of pre ++ pdecs_of [o']) by (intros; apply flat_map_app).
   assert (Hsd : forall o', sdecs_of (pre ++ [o']) = sdecs_of pre ++ sdecs_of [o']) by (intros; apply flat_map_app).
-  destruct o as [h|id app|hn id app|dd ff|dd ff| |sn|dl]; simpl.
+  destruct o as [h|id app|hn id app|dd ff|dd ff| | |pn|sn|dl]; simpl.
   - (* AddHandler *)
     destruct (find_handler (h_name h) st) eqn:F.
     + split; simpl; try assumption.
@@ -265,13 +268,13 @@ Proof.
     + split; simpl; try assumption; try reflexivity;
         [now rewrite Hr, app_nil_r | now rewrite Hpd, app_nil_r | now rewrite Hsd, app_nil_r | | ].
       * intros n. unfold find_handler. simpl. rewrite find_map_inv.
-        2:{ intros x. unfold name_is, start_one. now destruct (hs_started x). }
+        2:{ intros x. unfold name_is, start_one. now destruct (waiting st x). }
         fold (find_handler n st). rewrite Hf, spec_cfg_snoc, spec_started_snoc, spec_cfg_existsb. simpl.
-        destruct (spec_cfg n pre) eqn:E; [|reflexivity]. simpl. unfold start_one. simpl.
+        destruct (spec_cfg n pre) eqn:E; [|reflexivity]. simpl. unfold start_one. rewrite Hwait. unfold unstarted. simpl.
         destruct (spec_started n pre); [reflexivity|]. unfold residue_of. rewrite Hres. simpl.
         now rewrite app_nil_r, Hm, Hp, Hs.
       * unfold names. simpl. rewrite map_map.
-        erewrite map_ext; [exact Hn|]. intros x. unfold hname, start_one. now destruct (hs_started x).
+        erewrite map_ext; [exact Hn|]. intros x. unfold hname, start_one. now destruct (waiting st x).
     + (* nobody waits: the declarative reading agrees, nobody is started by this Start *)
       split; simpl; try assumption;
         [now rewrite Hr, app_nil_r | now rewrite Hpd, app_nil_r | now rewrite Hsd, app_nil_r | ].
@@ -280,7 +283,9 @@ Proof.
       destruct (spec_started n pre) eqn:Es; [reflexivity|]. exfalso.
       specialize (Hf n). rewrite E, Es in Hf. unfold find_handler in Hf.
       apply find_some in Hf as [Hin _]. unfold first_unstarted in Fu.
-      apply (find_none _ _ Fu) in Hin. discriminate.
+      apply (find_none _ _ Fu) in Hin. rewrite Hwait in Hin. discriminate.
+  - discriminate.
+  - discriminate.
   - discriminate.
   - split; simpl; try assumption; [now rewrite Hr, app_nil_r | now rewrite Hpd, app_nil_r | now rewrite Hsd, app_nil_r | ].
     intros n. symmetry. now apply Hsame.
@@ -304,16 +309,26 @@ Proof.
   rewrite <- E. now apply in_map.
 Qed.
 
+Lemma hname_start_one st x : hname (start_one st x) = hname x.
+Proof. unfold hname, start_one. now destruct (waiting st x). Qed.
+Lemma hname_snap_one st n decs x : hname (snap_one st n decs x) = hname x.
+Proof. unfold hname, snap_one. now destruct (name_is n x && unstarted x). Qed.
+
 Lemma step_nodup st o : NoDup (names st) -> NoDup (names (step st o)).
 Proof.
-  intros Hn. destruct o as [h|id app|hn id app|dd ff|dd ff| |sn|dl]; simpl; try assumption.
+  intros Hn. destruct o as [h|id app|hn id app|dd ff|dd ff| | |pn|sn|dl]; simpl; try assumption.
   - destruct (find_handler (h_name h) st) eqn:F; [assumption|]. unfold names. simpl. rewrite map_app. simpl.
     apply NoDup_app_one; [assumption|]. now apply find_none_not_in.
   - destruct (first_unstarted st); [|assumption].
     destruct (first_failing st (rev (pubdecs st))); [assumption|].
     destruct (first_failing st (subdecs st)); [assumption|].
     unfold names. simpl. rewrite map_map.
-    erewrite map_ext; [exact Hn|]. intros x. unfold hname, start_one. now destruct (hs_started x).
+    erewrite map_ext; [exact Hn|]. intros x. apply hname_start_one.
+  - destruct (first_unstarted st); [|assumption].
+    destruct (first_failing st (rev (pubdecs st))); [assumption|].
+    now destruct (first_failing st (subdecs st)).
+  - destruct (pending_of st pn); [|assumption]. unfold names. simpl. rewrite map_map.
+    erewrite map_ext; [exact Hn|]. intros x. apply hname_snap_one.
   - destruct (find_handler sn st) as [[c [s|]]|]; try assumption. unfold names. simpl. now apply names_filter.
 Qed.
 
@@ -328,10 +343,13 @@ Theorem mws_all ops : mws (exec rinit ops) = regs_of ops.
 Proof.
   induction ops as [|o ops IH] using rev_ind; [reflexivity|]. rewrite exec_snoc.
   unfold regs_of. rewrite flat_map_app. fold (regs_of ops). rewrite <- IH. simpl.
-  destruct o as [h|id app|hn id app|dd ff|dd ff| |sn|dl]; simpl; rewrite ?app_nil_r; try reflexivity.
+  destruct o as [h|id app|hn id app|dd ff|dd ff| | |pn|sn|dl]; simpl; rewrite ?app_nil_r; try reflexivity.
   - now destruct (find_handler (h_name h) (exec rinit ops)).
   - destruct (first_unstarted (exec rinit ops)); [|reflexivity].
     destruct (first_failing _ (rev _)); [reflexivity|]. now destruct (first_failing _ (subdecs _)).
+  - destruct (first_unstarted (exec rinit ops)); [|reflexivity].
+    destruct (first_failing _ (rev _)); [reflexivity|]. now destruct (first_failing _ (subdecs _)).
+  - now destruct (pending_of (exec rinit ops) pn).
   - now destruct (find_handler sn (exec rinit ops)) as [[c [s|]]|].
 Qed.
 
@@ -340,15 +358,22 @@ Theorem started_frozen st o n h s :
   find_handler n st = Some (HS h (Some s)) -> o <> OStop n ->
   find_handler n (step st o) = Some (HS h (Some s)).
 Proof.
-  intros F Ho. destruct o as [h'|id app|hn id app|dd ff|dd ff| |sn|dl]; simpl; try assumption.
+  intros F Ho. destruct o as [h'|id app|hn id app|dd ff|dd ff| | |pn|sn|dl]; simpl; try assumption.
   - destruct (find_handler (h_name h') st); [assumption|]. unfold find_handler in *. simpl.
     rewrite find_snoc, F. reflexivity.
   - destruct (first_unstarted st); [|assumption].
     destruct (first_failing st (rev (pubdecs st))); [assumption|].
     destruct (first_failing st (subdecs st)); [assumption|].
     unfold find_handler in *. simpl. rewrite find_map_inv.
-    2:{ intros x. unfold name_is, start_one. now destruct (hs_started x). }
+    2:{ intros x. unfold name_is, start_one. now destruct (waiting st x). }
     rewrite F. reflexivity.
+  - destruct (first_unstarted st); [|assumption].
+    destruct (first_failing st (rev (pubdecs st))); [assumption|].
+    now destruct (first_failing st (subdecs st)).
+  - destruct (pending_of st pn); [|assumption].
+    unfold find_handler in *. simpl. rewrite find_map_inv.
+    2:{ intros x. unfold snap_one. destruct (name_is pn x && unstarted x); reflexivity. }
+    rewrite F. simpl. unfold snap_one. simpl. now rewrite andb_false_r.
   - destruct (find_handler sn st) as [[c [s'|]]|] eqn:Fs; try assumption.
     unfold find_handler in *. simpl.
     assert (sn <> n) by (intros ->; now apply Ho).
@@ -375,8 +400,7 @@ Proof.
     destruct H as [H|[H1 H2]]; [now rewrite H|now rewrite H1, H2].
   - intros H1 H2. simpl. destruct (first_unstarted st) eqn:Fu; [now rewrite H1, H2|].
     symmetry. erewrite map_ext_in; [apply map_id|]. intros hs Hin. unfold start_one.
-    unfold first_unstarted in Fu. apply (find_none _ _ Fu) in Hin. unfold unstarted in Hin.
-    now destruct (hs_started hs).
+    unfold first_unstarted in Fu. apply (find_none _ _ Fu) in Hin. now rewrite Hin.
 Qed.
 
 (** * Part 3: every delivery of every program is accepted by the property acceptors *)
@@ -446,7 +470,7 @@ Lemma prog_ok_run (same : list ev -> list ev -> bool) (Hrefl : forall t, same t 
 Proof.
   induction ops as [|o ops IH]; intros pre Hp; [reflexivity|].
   assert (Hp' : plain ((pre ++ [o]) ++ ops) = true) by now rewrite <- app_assoc.
-  destruct o as [h|id app|hn id app|dd ff|dd ff| |sn|d]; cbn [run prog_ok]; try (rewrite <- exec_snoc; now apply IH).
+  destruct o as [h|id app|hn id app|dd ff|dd ff| | |pn|sn|d]; cbn [run prog_ok]; try (rewrite <- exec_snoc; now apply IH).
   apply plain_app in Hp as [Hpre _].
   rewrite (deliver_ok same Hrefl pre _ d (exec_inv pre Hpre)). cbn [andb].
   specialize (IH (pre ++ [ODeliver d]) Hp'). now rewrite exec_snoc in IH.
@@ -473,7 +497,7 @@ Lemma prog_ok_st_run (same : list ev -> list ev -> bool) (Hrefl : forall t, same
   forall ops st, NoDup (names st) -> prog_ok_st same st ops (run st ops) = true.
 Proof.
   induction ops as [|o ops IH]; intros st Hn; [reflexivity|].
-  destruct o as [h|id app|hn id app|dd ff|dd ff| |sn|d]; cbn [run prog_ok_st];
+  destruct o as [h|id app|hn id app|dd ff|dd ff| | |pn|sn|d]; cbn [run prog_ok_st];
     try (apply IH; now apply step_nodup).
   rewrite (deliver_ok_st same Hrefl st d Hn). cbn [andb]. now apply IH.
 Qed.
@@ -857,11 +881,15 @@ Proof. rewrite dispatch_spec. apply spec_trace_order. Qed.
 (** * Round "proofs": retried RunHandlers decorates once (repaired); the pinned behaviour is refuted *)
 Lemma step_residue st o : residue st = [] -> residue (step st o) = [].
 Proof.
-  intros H. destruct o as [h|id app|hn id app|dd ff|dd ff| |sn|dl]; simpl; try assumption.
+  intros H. destruct o as [h|id app|hn id app|dd ff|dd ff| | |pn|sn|dl]; simpl; try assumption.
   - now destruct (find_handler (h_name h) st).
   - destruct (first_unstarted st); [|assumption].
     destruct (first_failing st (rev (pubdecs st))); [assumption|].
     now destruct (first_failing st (subdecs st)).
+  - destruct (first_unstarted st); [|assumption].
+    destruct (first_failing st (rev (pubdecs st))); [assumption|].
+    now destruct (first_failing st (subdecs st)).
+  - now destruct (pending_of st pn).
   - now destruct (find_handler sn st) as [[c [s|]]|].
 Qed.
 Theorem residue_empty_all ops : residue (exec rinit ops) = [].
@@ -869,11 +897,11 @@ Proof.
   induction ops as [|o ops IH] using rev_ind; [reflexivity|]. rewrite exec_snoc. now apply step_residue.
 Qed.
 (** so what a handler freezes when it is finally started is exactly the decorator lists of that moment *)
-Theorem start_one_no_residue ops hs : hs_started hs = None ->
+Theorem start_one_no_residue ops hs : hs_started hs = None -> waiting (exec rinit ops) hs = true ->
   start_one (exec rinit ops) hs =
   HS (hs_cfg hs) (Some (ST (mws (exec rinit ops)) (pubdecs (exec rinit ops)) (subdecs (exec rinit ops)))).
 Proof.
-  intros H. unfold start_one, residue_of. rewrite H, residue_empty_all. simpl. now rewrite app_nil_r.
+  intros H Hw. unfold start_one, frozen_decs, residue_of. rewrite Hw, residue_empty_all. simpl. now rewrite app_nil_r.
 Qed.
 
 Definition pinned_witness : list op :=
